@@ -773,8 +773,8 @@ func parseTags(text string, basePos Position) []ast.Tag {
 			}
 		}
 
-		startCol := basePos.Column + 1 + tagStart
-		endCol := basePos.Column + 1 + tagEnd
+		startCol := basePos.Column + 1 + utf16Len(text[:tagStart])
+		endCol := basePos.Column + 1 + utf16Len(text[:tagEnd])
 
 		tags = append(tags, ast.Tag{
 			Name:  name,
@@ -789,6 +789,15 @@ func parseTags(text string, basePos Position) []ast.Tag {
 	}
 
 	return tags
+}
+
+// utf16Len is the length of s in UTF-16 code units, the unit columns are counted in.
+func utf16Len(s string) int {
+	n := 0
+	for _, r := range s {
+		n += utf16Width(r)
+	}
+	return n
 }
 
 func isValidTagName(name string) bool {
